@@ -130,6 +130,10 @@ type MultisetCombinationIterator struct {
 
 	//A buffer slice to return the value in as we iterate using FreqValue
 	value []int
+
+	//Algorithm Q needs every multiplicity to be positive, so state and m only hold the types i with m[i] > 0 (listed in types) and freq is state expanded to all types.
+	types []int
+	freq  []int
 }
 
 //MultisetCombinations returns an iterator which iterates over all multisets containing k elements and with a maximum of m[i] elements of type i. Value returns the multiset of k items and FreqValue returns a slice v where v[i] is the number of i in the multiset.
@@ -142,7 +146,7 @@ func MultisetCombinations(m []int, k int) *MultisetCombinationIterator {
 func (iter MultisetCombinationIterator) Value() []int {
 	c := 0
 
-	for i, v := range iter.state {
+	for i, v := range iter.freq {
 		for j := 0; j < v; j++ {
 			iter.value[c] = i
 			c++
@@ -155,15 +159,35 @@ func (iter MultisetCombinationIterator) Value() []int {
 //FreqValue returns a slice v where v[i] is the number of i in the multiset.
 //You must not modify the return value.
 func (iter MultisetCombinationIterator) FreqValue() []int {
-	return iter.state
+	return iter.freq
 }
 
 //Next attempts to advance the iterator to the next multiset, returning true if there is one and false if not.
 //This is an implementation of Algorithm Q from The Art of Computer Programming Volume 4a section 7.2.1.3.
 func (iter *MultisetCombinationIterator) Next() bool {
+	if !iter.next() {
+		return false
+	}
+	for i, t := range iter.types {
+		iter.freq[t] = iter.state[i]
+	}
+	return true
+}
+
+func (iter *MultisetCombinationIterator) next() bool {
 	if iter.state == nil {
 		//Initial call
 		iter.value = make([]int, iter.k)
+		//Drop the types which cannot be used.
+		iter.freq = make([]int, len(iter.m))
+		positive := make([]int, 0, len(iter.m))
+		for i, v := range iter.m {
+			if v > 0 {
+				iter.types = append(iter.types, i)
+				positive = append(positive, v)
+			}
+		}
+		iter.m = positive
 		//Q2
 		iter.state = make([]int, len(iter.m))
 		x := iter.k
